@@ -188,6 +188,23 @@ func checkHistory(hist history) (h.Info, error) {
 					}
 				}
 			}
+			// the returned lane slices are independent: extending one in place must not change another
+			if o.Lanes >= 2 && o.Blocks > 0 {
+				snap := make([]trinary.Trits, o.Lanes)
+				for j := range dst {
+					snap[j] = append(trinary.Trits{}, dst[j]...)
+				}
+				for j := range dst {
+					dst[j] = append(dst[j], 1, -1, 1, -1, 1, -1, 1, -1)
+				}
+				for j := range dst {
+					for i := range snap[j] {
+						if dst[j][i] != snap[j][i] {
+							return h.Info{}, fmt.Errorf("%s: appending to the squeezed slice of another lane changed lane %d trit %d (lanes share storage)", where, j, i)
+						}
+					}
+				}
+			}
 			if o.Blocks > 0 {
 				squeezed = true
 			}
